@@ -11,7 +11,7 @@ import (
 func init() {
 	register(Property{ID: "C05", Level: "other", Run: runC05,
 		Technique: "static analysis: must-pass-through path conditions on the SSA control-flow graph of httpp.isOriginAllowed, origin classification of the wildcard regexp pattern, who-may-write of the CORS header",
-		Text:      "Decides for httpp.isOriginAllowed on all paths: every echo of the request origin is reached only under scheme equality of the origin and the allowed entry and, in the exact branch, host (with effective port) equality, in the wildcard branch a successful anchored regexp match of the origin host:port against a pattern built from the allowed host:port in which every non-'*' character is escaped literally (regexp.QuoteMeta before the '*' expansion); default ports are substituted per scheme on both URLs; '*' is returned only when '*' is configured; no other result exists; the header is written only by handlerOrigin.ServeHTTP under the ok result. Not decided: url.Parse and regexp semantics, the exact shape of the '*' expansion.",
+		Text:      "Decides for httpp.isOriginAllowed on all paths: every echo of the request origin is reached only under scheme equality of the origin and the allowed entry and, in the exact branch, host (with effective port) equality, in the wildcard branch a successful anchored regexp match of the origin host:port against a pattern built from the allowed host:port in which every non-'*' character is escaped literally (regexp.QuoteMeta before the '*' expansion); default ports are substituted per scheme on both URLs; '*' is returned only when '*' is configured; no other result exists; the header is written only by handlerOrigin.ServeHTTP under the ok result; the list in force follows the configuration on reload: every component of Core.createResources that takes AllowOrigins from a conf field is closed (hence rebuilt) in Core.closeResources under conditions that include a comparison of that same field between the new and the current configuration. Not decided: url.Parse and regexp semantics, the exact shape of the '*' expansion.",
 		Note:      "trusted: net/url.Parse, regexp, net.JoinHostPort; go/types+go/ssa construction"})
 	addMutants(
 		Mutant{"C05", "exact-scheme-not-compared", "internal/protocols/httpp/handler_origin.go",
@@ -34,6 +34,12 @@ func init() {
 			"	if ok {\n		w.Header().Set(\"Access-Control-Allow-Origin\", origin)\n	}", "	_ = ok\n	w.Header().Set(\"Access-Control-Allow-Origin\", origin)", "C05.header"},
 		Mutant{"C05", "echo-of-unvetted-origin", "internal/protocols/httpp/handler_origin.go",
 			"	if slices.Contains(allowOrigins, \"*\") {\n		return \"*\", true\n	}", "	if slices.Contains(allowOrigins, \"*\") {\n		return origin, true\n	}", "C05.exact"},
+		Mutant{"C05", "webrtc-reload-compares-hls-origins", "internal/core/core.go",
+			"!slices.Equal(newConf.WebRTCAllowOrigins, currentConf.WebRTCAllowOrigins) ||", "!slices.Equal(newConf.HLSAllowOrigins, currentConf.HLSAllowOrigins) ||", "C05.config.reload"},
+		Mutant{"C05", "api-reload-ignores-allow-origins", "internal/core/core.go",
+			"		!slices.Equal(newConf.APIAllowOrigins, currentConf.APIAllowOrigins) ||\n", "", "C05.config.reload"},
+		Mutant{"C05", "playback-reload-compares-list-with-itself", "internal/core/core.go",
+			"!slices.Equal(newConf.PlaybackAllowOrigins, currentConf.PlaybackAllowOrigins)", "!slices.Equal(currentConf.PlaybackAllowOrigins, currentConf.PlaybackAllowOrigins)", "C05.config.reload"},
 	)
 }
 
@@ -91,7 +97,10 @@ func runC05(c *Ctx) {
 	}
 	c.Explain = "E1 on httpp.isOriginAllowed: closed table of results; per echo site (exact / wildcard, classified by whether every path to it carries a successful regexp match) the scheme, host and match literals; E5 on the pattern argument of regexp.MatchString (anchors, QuoteMeta origin of the allowed host, subject = origin host:port); pairing of default ports with schemes on both URLs; '*' only under slices.Contains(allowOrigins, \"*\"); E1 on handlerOrigin.ServeHTTP and module-wide who-mentions the header name. " +
 		"Not decided: url.Parse/regexp semantics, the shape of the '*' expansion replacements, Vary/credentials headers."
-	c.Assume = []string{"net/url.Parse, URL.Port, net.JoinHostPort, regexp.MatchString and regexp.QuoteMeta behave as documented"}
+	c.Explain += " Round 3 (prop_r3_c05.go): the list the decision is taken on is the configured one after a reload - for every component of Core.createResources whose AllowOrigins field is loaded from conf field F, the conditions that dominate the Close of that component in Core.closeResources (expanded through boolean phis, or-ed flags, negations and module predicates) contain a comparison of F between two configurations (== / != / slices.Equal / reflect.DeepEqual). Not decided there: that each component hands its AllowOrigins on to httpp.Server unchanged (C13 covers use/compare sets of all parameters by name)."
+	c.Assume = []string{"net/url.Parse, URL.Port, net.JoinHostPort, regexp.MatchString and regexp.QuoteMeta behave as documented",
+		"a component reads its allow-list only from the AllowOrigins field of its literal in Core.createResources; closing a component in closeResources makes createResources rebuild it from the new configuration"}
+	c.c05Reload(p)
 
 	fn := c.fn(p, "internal/protocols/httpp", "", "isOriginAllowed")
 	if fn == nil {
